@@ -129,6 +129,10 @@ def dta(ctx, R):
         pts |= {c - 1, c, c + 1}
     pts = sorted(x for x in pts if -2**63 <= x <= 2**64 - 1)
     chain = [s for s in body if isinstance(s, ast.If)]
+    if not chain or not consts:
+        R.unrecognised("writer._infer_dtype::decision table", fi.where(), "the integer branch is not a chain of comparisons with constants written in the "
+                       "function (%d tests, %d constants): the dtype thresholds are not decided" % (len(chain), len(consts)))
+        return
     n_cells = n_rej = 0
     bad = {}
     for mx in pts:
